@@ -207,14 +207,19 @@ impl Subscription {
                 let schema = schema.clone();
                 let field_type = field_def.ty.clone();
                 let resolver_fn = field_def.resolver_fn.clone();
+                let field_arguments = field_def
+                    .arguments
+                    .iter()
+                    .map(|(name, def)| (name.clone(), def.ty.clone(), def.default_value.clone()))
+                    .collect::<Vec<_>>();
                 let ctx = ctx.clone();
 
                 streams.push(
                     asynk_strim::try_stream_fn(move |mut yielder| async move {
                         let ctx_field = ctx.with_field(field);
                         let field_name = ctx_field.item.node.response_key().node.clone();
-                        let arguments = ObjectAccessor(Cow::Owned(
-                            field
+                        let arguments = ObjectAccessor(Cow::Owned({
+                            let mut args = field
                                 .node
                                 .arguments
                                 .iter()
@@ -228,8 +233,16 @@ impl Subscription {
                                 .collect::<ServerResult<Vec<_>>>()?
                                 .into_iter()
                                 .flatten()
-                                .collect::<IndexMap<_, _>>(),
-                        ));
+                                .collect::<IndexMap<_, _>>();
+                            crate::dynamic::resolve::complete_values(
+                                &schema,
+                                field_arguments
+                                    .iter()
+                                    .map(|(name, ty, def)| (name.as_str(), ty, def.as_ref())),
+                                &mut args,
+                            );
+                            args
+                        }));
 
                         let mut stream = resolver_fn(ResolverContext {
                             ctx: &ctx_field,
